@@ -23,3 +23,5 @@ impl Gt {
 pub broadcast axiom fn axiom_gt_range(p: Gt) ensures inr(#[trigger] p.dl());
 pub broadcast axiom fn axiom_gt_inj(a: Gt, b: Gt) ensures (#[trigger] a.dl() == #[trigger] b.dl()) ==> a == b;
 
+pub uninterp spec fn gt_of(d: int) -> Gt;
+pub broadcast axiom fn axiom_gt_of(d: int) requires inr(d) ensures (#[trigger] gt_of(d)).dl() == d;
